@@ -194,6 +194,22 @@ pub fn split_log(re: &Regex, text: &str) -> IterLog<(usize, usize)> {
     )
 }
 
+/// Every item of split up to None, *continuing past Err items* (at most len + 6 items); None if it panics.
+pub fn split_all(re: &Regex, text: &str) -> Option<Vec<Result<(usize, usize), String>>> {
+    let base = text.as_ptr() as usize;
+    catch_unwind(AssertUnwindSafe(|| {
+        let mut out = Vec::new();
+        for r in re.split(text).take(text.len() + 6) {
+            out.push(match r {
+                Ok(s) => Ok((s.as_ptr() as usize - base, s.as_ptr() as usize - base + s.len())),
+                Err(e) => Err(err_kind(&e)),
+            });
+        }
+        out
+    }))
+    .ok()
+}
+
 pub fn splitn_log(re: &Regex, text: &str, n: usize) -> IterLog<(usize, usize)> {
     let base = text.as_ptr() as usize;
     let horizon = text.len() + 3;
